@@ -1387,6 +1387,12 @@ handshake_version(int dns_fd, int *seed)
 					((in[7] & 0xff)));
 
 			if (strncmp("VACK", in, 4) == 0) {
+				if (in[8] < 0 || in[8] > 15) {
+					/* user ids are a single hex digit on the wire */
+					warnx("Server assigned invalid user id %d. Giving up",
+						in[8] & 0xff);
+					return 1;
+				}
 				*seed = payload;
 				userid = in[8];
 				userid_char = hex[userid & 15];
